@@ -15,11 +15,12 @@ class DefNet:
     def __init__(self, name):
         self.name = name
         self.pins = []
+        self.routed = []
 
     @property
     def wires(self):
         ww = defaultdict(list)
-        [ww[dw.layer].append((int(dw.width), dw.wire_points)) for dw in self.routed if len(dw.wire_points) > 0]
+        [ww[dw.layer].append((None if dw.width is None else int(dw.width), dw.wire_points)) for dw in self.routed if len(dw.wire_points) > 0]
         return ww
 
     @property
@@ -37,9 +38,12 @@ class DefWire:
 
     @property
     def wire_points(self):
-        start = [self.points[0]]
-        rest = [p for p in self.points[1:] if not isinstance(p[0], str)]  # skip over vias
-        return start + rest if len(rest) > 0 else []
+        pts = [self.points[0]]
+        for p in self.points[1:]:
+            if isinstance(p[0], str): continue  # skip over vias
+            prev = pts[-1]
+            pts.append((prev[0] if p[0] is None else p[0], prev[1] if p[1] is None else p[1]) + tuple(p[2:]))  # if None, keep previous value
+        return pts if len(pts) > 1 else []
 
     @property
     def vias(self):
@@ -161,6 +165,7 @@ class DefTransformer(Transformer):
         dnet = DefNet(args[0].value)
         for arg in args[1:]:
             if arg[0] == '__pin__': dnet.pins.append(arg[1])
+            elif isinstance(arg[1], list): dnet.__dict__.setdefault(arg[0], []).extend(arg[1])  # wiring statements accumulate
             else: setattr(dnet, arg[0], arg[1])
         self.def_file.specialnets[dnet.name] = dnet
 
@@ -168,6 +173,7 @@ class DefTransformer(Transformer):
         dnet = DefNet(args[0].value)
         for arg in args[1:]:
             if arg[0] == '__pin__': dnet.pins.append(arg[1])
+            elif isinstance(arg[1], list): dnet.__dict__.setdefault(arg[0], []).extend(arg[1])  # wiring statements accumulate
             else: setattr(dnet, arg[0], arg[1])
         self.def_file.nets[dnet.name] = dnet
 
